@@ -1102,6 +1102,65 @@ fn connect_stall_cases() -> Vec<(String, Option<(String, String)>, bool)> {
     })
 }
 
+//
+// The threads of the connection race are threads the request created too: when the race was won
+// while an earlier attempt was still waiting for an address that never answers, dropping the
+// response does not end that attempt - it stays until its connect timeout.
+//
+fn loser_attempt_case() -> (String, Option<(String, String)>, bool) {
+    let name = "race-loser-after-drop".to_string();
+    let Some(hole) = crate::c17::black_hole(false) else { return (name, None, false) };
+    let listener = TcpListener::bind("127.0.0.1:0").unwrap();
+    let addr = listener.local_addr().unwrap();
+    let server = std::thread::spawn(move || {
+        if let Ok((mut s, _)) = listener.accept() {
+            let mut buf = [0u8; 2048];
+            let _ = s.set_read_timeout(Some(Duration::from_secs(5)));
+            let _ = s.read(&mut buf);
+            let _ = s.write_all(b"HTTP/1.1 200 OK\r\nContent-Length: 2\r\n\r\nok");
+        }
+    });
+    let gates = Gates::new();
+    gates.open_all();
+    let g2 = gates.clone();
+    let addrs = vec![hole.addr, addr];
+    let user = std::thread::spawn(move || {
+        g2.register_current("user");
+        attohttpc::verif::set_resolution("race2.test", Some(addrs));
+        let res = guarded(|| attohttpc::get("http://race2.test:7777/").connect_timeout(Duration::from_secs(4)).read_timeout(Duration::from_secs(5)).send().and_then(|r| r.text()));
+        attohttpc::verif::set_resolution("race2.test", None);
+        g2.unregister_current();
+        (format!("{res:?}"), Instant::now())
+    });
+    let (res, t_dropped) = user.join().unwrap();
+    let _ = server.join();
+    if res != "Ok(Ok(\"ok\"))" {
+        return (name, Some(("retrying-caller".to_string(), format!("[unresponsive address, accepting address]: {res}"))), true);
+    }
+    // how long do the attempt threads of that request live on?
+    let t0 = Instant::now();
+    let lingering = loop {
+        let alive = gates.threads().iter().filter(|t| t.name == "he.attempt" && t.status != St::Exited).count();
+        if alive == 0 || t0.elapsed() > Duration::from_secs(6) {
+            break alive;
+        }
+        std::thread::sleep(Duration::from_millis(20));
+    };
+    let after = t_dropped.elapsed();
+    let viol = if after > Duration::from_millis(1500) {
+        Some((
+            "lingering-attempt-thread".to_string(),
+            format!(
+                "a name resolving to [an address that never answers, an accepting address], connect timeout 4 s: the response was read and dropped, but the connection attempt to the first address (its thread and half-open socket) lived on for {after:?}{}",
+                if lingering > 0 { " and was still there when the check gave up" } else { "" }
+            ),
+        ))
+    } else {
+        None
+    };
+    (name, viol, true)
+}
+
 pub fn c13(ctx: &Ctx) -> Report {
     // Part B first (free running, real clock), all phases in parallel
     let ps = phases();
@@ -1120,6 +1179,14 @@ pub fn c13(ctx: &Ctx) -> Report {
     let mut extras = extra_timing_cases();
     let mut connect_stall_skipped = 0u64;
     for (name, viol, ran) in connect_stall_cases() {
+        if ran {
+            extras.push((name, viol));
+        } else {
+            connect_stall_skipped += 1;
+        }
+    }
+    {
+        let (name, viol, ran) = loser_attempt_case();
         if ran {
             extras.push((name, viol));
         } else {
@@ -1226,6 +1293,8 @@ pub fn replay(v: &serde_json::Value) -> i32 {
     if !v["case"]["extra"].is_null() {
         let mut r = extra_timing_cases();
         r.extend(connect_stall_cases().into_iter().map(|(n, v, _)| (n, v)));
+        let (n, v, _) = loser_attempt_case();
+        r.push((n, v));
         println!("{r:?}");
         return if r.iter().any(|(_, v)| v.is_some()) { 1 } else { 0 };
     }
